@@ -352,7 +352,9 @@ static void case_table(Rng& rng, uint64_t index)
 		double amax = 0;
 		for(double y : T.Y)
 			amax = std::max(amax, std::fabs(y));
-		double span = std::max(1.0, 3 * (T.X[N - 1] - T.X[0]));
+		// (span: the width of the table and its distance from the origin - the library forms prefactor x f x x before it takes the difference of the two
+		// stem-function values, so that product has to be representable as well; thorough tier, tables#1784640: a constant table at x = -2.4e11)
+		double span = std::max(std::max(1.0, 3 * (T.X[N - 1] - T.X[0])), 4 * std::max(std::fabs(T.X[0]), std::fabs(T.X[N - 1])));
 		if(amax > 0 && std::isfinite(amax * span))
 			for(int m = 0; m < 4; m++)
 			{
